@@ -221,6 +221,7 @@ func (v *batchVerifier) Verify(batch *Batch, bestHeight uint32) error {
 
 	// Now that we know all the accounts that were involved in the batch,
 	// we can make sure we got a diff for each of them.
+	seenDiffs := make(map[[33]byte]struct{})
 	for _, diff := range batch.AccountDiffs {
 		// We only should get diffs for accounts that have orders in the
 		// batch. If not, something's messed up.
@@ -232,6 +233,16 @@ func (v *batchVerifier) Verify(batch *Batch, bestHeight uint32) error {
 			}
 		}
 		acct := accounts[diff.AccountKeyRaw]
+
+		// An account can only be charged once per batch, otherwise the
+		// chain fees would be deducted from its tally multiple times.
+		if _, ok := seenDiffs[diff.AccountKeyRaw]; ok {
+			return &MismatchErr{
+				msg: fmt.Sprintf("got duplicate diff for "+
+					"account %x", diff.AccountKeyRaw),
+			}
+		}
+		seenDiffs[diff.AccountKeyRaw] = struct{}{}
 
 		// Now that we know how many channels were created from the
 		// given account, let's also account for the chain fees.
@@ -251,12 +262,34 @@ func (v *batchVerifier) Verify(batch *Batch, bestHeight uint32) error {
 		if batch.Version.SupportsAccountExtension() &&
 			diff.NewExpiry != 0 {
 
+			// The new expiry must not lock the account for longer
+			// than the maximum account lifetime from now.
+			maxExpiry := uint64(bestHeight) +
+				uint64(account.MaxAccountExpiry)
+			if uint64(diff.NewExpiry) > maxExpiry {
+				return &MismatchErr{
+					msg: fmt.Sprintf("new expiry %d of "+
+						"account %x is above maximum "+
+						"height %d", diff.NewExpiry,
+						diff.AccountKeyRaw, maxExpiry),
+				}
+			}
+
 			acct.Expiry = diff.NewExpiry
 		}
 
 		// Update account version if needed.
 		if batch.Version.SupportsAccountTaprootUpgrade() &&
 			diff.NewVersion > acct.Version {
+
+			// Only upgrade to account versions we know about.
+			err := account.ValidateVersion(diff.NewVersion)
+			if err != nil {
+				return newMismatchErr(
+					err, "account %x new version is "+
+						"invalid", diff.AccountKeyRaw,
+				)
+			}
 
 			acct.Version = diff.NewVersion
 		}
